@@ -41,6 +41,9 @@ def make_case(rng):
     ref = [round(x, 1) if onedec else float(round(x)) for x in pos]
     reflen = ref[-1] + rng.choice([0.4, 1, 5000, rng.randint(1, 20000)])
     queries, truth, qclass = [], {}, {}
+    # CMapIds of the two files are independent number spaces: let a query share the reference's id in part of the inputs
+    refid = rng.choice([1, 1, 2, 17, 100, 105])
+    qid0 = max(1, rng.choice([100, 100, 1, refid - rng.randint(0, 11)]))
     for j in range(12):
         k = rng.randint(15, 45)
         if len(ref) - k - 8 < 4:
@@ -59,11 +62,11 @@ def make_case(rng):
         else:
             q = sorted(round(sub[-1] - x + off, 1) for x in sub)
             tr = [[s + 1 + i, k - i] for i in range(k)]
-        qid = 100 + j
+        qid = qid0 + j
         queries.append([qid, round(q[-1] + trail, 1), q])
         truth[str(qid)] = {'pairs': tr, 'ori': '-' if rev else '+', 'window_start': sub[0], 'off': off, 'trail': trail}
         qclass[str(qid)] = 'planted'
-    return {'refs': [[1, round(reflen, 1), ref]], 'queries': queries, 'qclass': qclass, 'truth': truth,
+    return {'refs': [[refid, round(reflen, 1), ref]], 'queries': queries, 'qclass': qclass, 'truth': truth,
             'params': dict(gen.DEFAULTS), 'mode': rng.choice(gen.MODES)}
 
 
@@ -97,7 +100,7 @@ def judge(case, wd, sh):
         else:
             idx, r = hit
             tp = [tuple(p) for p in t['pairs']]
-            if r['r'] != 1 or r['ori'] != t['ori']:
+            if r['r'] != case['refs'][0][0] or r['ori'] != t['ori']:
                 key, what = 'planted-query-wrong-strand', 'query %d planted %s, reported %s on ref %s' % (qid, t['ori'], r['ori'], r['r'])
             elif r['aln'] != tp:
                 key, what = 'planted-query-wrong-pairs', 'query %d (%s): reported %s..., true %s... (%d vs %d pairs)' % (
